@@ -85,7 +85,12 @@ pub struct Parsed {
 pub fn parse(ps: &mut Parsers, input: &str, ext: u32, conv: &str) -> Option<Parsed> {
     let parser = ps.parser(ext, conv).clone();
     let r = crate::core::guarded(|| parser.parse(input)).ok()?;
-    Some(Parsed { valid: r.is_valid(), has_output: r.has_output(), img: r.output().map(|o| normalised(&serde_json::to_value(o).unwrap())) })
+    Some(Parsed { valid: r.is_valid(), has_output: r.has_output(), img: r.output().map(|o| match serde_json::to_value(o) {
+        Ok(v) => normalised(&v),
+        // front matter with a non-string key cannot be serialized (known finding F14, C15's business): such a pair is
+        // compared on validity and output presence only
+        Err(e) => J::String(format!("<unserializable: {e}>")),
+    }) })
 }
 
 /// compare; returns cause class + message
